@@ -5,6 +5,7 @@
 # Prints one line per patch: name tests=<pass|FAIL|skipped> check_exit=<n> first finding.
 set -u
 VERIF="$(cd "$(dirname "$0")/.." && pwd)"
+REPO="${VERIF_REPO:-/repo}"
 wt=""
 if [ "${1:-}" = "--tests" ]; then wt="$2"; shift 2; fi
 for p in "$@"; do
@@ -16,11 +17,11 @@ for p in "$@"; do
         if (cd "$wt" && CARGO_NET_OFFLINE=true cargo test --workspace --no-fail-fast --offline >"$wt/target.test.log" 2>&1); then tests="pass"; else tests="FAIL"; fi
         git -C "$wt" checkout -q -- .
     fi
-    if ! git -C /repo diff --quiet; then echo "/repo is dirty, refusing"; exit 2; fi
-    git -C /repo apply "$p" || { echo "$name: patch does not apply to /repo"; continue; }
+    if ! git -C "$REPO" diff --quiet; then echo "$REPO is dirty, refusing"; exit 2; fi
+    git -C "$REPO" apply "$p" || { echo "$name: patch does not apply to $REPO"; continue; }
     out="$("$VERIF/check" C06 --tier quick 2>&1)"; code=$?
-    git -C /repo checkout -q -- . 
-    git -C /repo clean -fdq src >/dev/null 2>&1
+    git -C "$REPO" checkout -q -- . 
+    git -C "$REPO" clean -fdq src >/dev/null 2>&1
     first="$(echo "$out" | grep -E '^(violation:|HARNESS-ERROR|NOTE)' | head -2 | cut -c1-260 | tr '\n' ' ')"
     echo "$name tests=$tests check_exit=$code $first"
 done
